@@ -1,5 +1,121 @@
-(* C02 — showdown pays the right players the right amounts. *)
-From PF Require Import Base ModelPot ModelSettle.
+(* C02 — showdown pays the right players the right amounts.
+   A settlement vector has one entry per player: (index, contribution, folded, bankroll, score).
+   settle_vec v is what the pot and settlement packages compute for it (levels by pot.LevelList, pots by
+   GetPots, scores entered with UpdateScore, result by Calculate); it is the function the correspondence
+   check runs against the Go packages (run_settle_case), and game_completed in the engine model calls the
+   same settle.  chg ps x / fin ps x are the Changed / Final recorded for player x.
+     vec_ok v     : indices are distinct, contributions are not negative
+     scores_ok v  : a folded player has score 0, every other player a positive score (how the engine
+                    enters them: settlement.go gives folded players 0, power.go scores are positive) *)
+From Coq Require Import Lia.
+From PF Require Import Base ModelPot ModelSettle ProofsPot ProofsSettle.
+
+(* the theorems below are about the function the harness compares with the Go code *)
+Theorem C02_model_is_the_tested_function :
+  forall v, vec_ok v -> run_settle_case v = ("panic"%string, [0]) :: obs_result (settle_vec v).
+Proof.
+  intros v Hok. unfold run_settle_case. fold (v_pot v). fold (v_pl v).
+  rewrite (settle_vec_no_panic v Hok). reflexivity.
+Qed.
+Print Assumptions C02_model_is_the_tested_function.
+
+(* the Go code divides a level by the number of its winners; on a well-formed vector that is never 0 *)
+Theorem C02_no_division_by_zero :
+  forall v, vec_ok v -> settle_panics (get_pots (ll_of (v_pot v))) (v_pl v) = false.
+Proof. exact settle_vec_no_panic. Qed.
+Print Assumptions C02_no_division_by_zero.
+
+(* every level (layer) inside the published pots is settled on its own: its contributors are the players
+   who put in at least the level; with M the best score among them,
+     - a player who did not pay into the level is not touched by it,
+     - a contributor whose score is not M loses the level's wager,
+     - a contributor whose score is M receives the level total divided by the number of contributors
+       holding M, plus at most one odd chip (only when the division leaves a remainder), minus his wager;
+   and the level as a whole is zero-sum *)
+Theorem C02_layer_rule :
+  forall v, vec_ok v ->
+  forall p l, In p (get_pots (ll_of (v_pot v))) -> In l (pt_levels p) ->
+    (forall y, In y (l_contribs l) <-> exists cy fy by' sy, In (y, cy, fy, by', sy) v /\ l_level l <= cy) /\
+    forall off x,
+      let sc := sc_of (v_pl v) (l_contribs l) in
+      level_total (slevel (v_pl v) l) off = 0 /\
+      exists M, best_score M sc /\
+        (~ In x (l_contribs l) -> level_share (slevel (v_pl v) l) off x = 0) /\
+        (forall s, In (x, s) sc -> s <> M -> level_share (slevel (v_pl v) l) off x = - l_wager l) /\
+        (In (x, M) sc -> exists e, (e = 0 \/ (e = 1 /\ 0 < l_total l mod zn (length (with_score M sc)))) /\
+            level_share (slevel (v_pl v) l) off x = l_total l / zn (length (with_score M sc)) + e - l_wager l).
+Proof.
+  intros v Hok p l Hp Hl. destruct (vec_level_contribs v Hok p l Hp Hl) as (Hlok & _ & Hcon).
+  split; [exact Hcon|]. intros off x. apply slevel_spec; [rewrite pidx_v_pl; apply Hok|exact Hlok].
+Qed.
+Print Assumptions C02_layer_rule.
+
+(* a player's change is the sum of what the levels do to him *)
+Theorem C02_change_is_the_sum_of_the_layers :
+  forall pots players x,
+    chg (res_players (settle pots players)) x = pots_share (scored_pots players pots) x.
+Proof. intros pots players x. apply settle_players. Qed.
+Print Assumptions C02_change_is_the_sum_of_the_layers.
+
+(* the result as a whole: the changes sum to zero; every final stack is the bankroll plus the change;
+   nobody loses more than he put in; nobody wins more than what each opponent put in up to his own
+   contribution (a short all-in collects at most its own stake from each opponent) *)
+Theorem C02_result_of_a_vector :
+  forall v, vec_ok v ->
+    let ps := res_players (settle_vec v) in
+    idxs ps = v_idx v /\
+    sumc ps = 0 /\
+    forall x c f b s, In (x, c, f, b, s) v ->
+      fin ps x = b + chg ps x /\
+      - c <= chg ps x <= zsum (map (fun w => Z.min w c) (v_contrib v)) - c.
+Proof. exact settle_vec_summary. Qed.
+Print Assumptions C02_result_of_a_vector.
+
+(* a folded player wins nothing: he loses exactly what he put in, as soon as some player with a positive
+   score has put in at least as much *)
+Theorem C02_folded_player_wins_nothing :
+  forall v, vec_ok v ->
+  forall x c b, In (x, c, true, b, 0) v ->
+    (exists y cy fy by' sy, In (y, cy, fy, by', sy) v /\ c <= cy /\ 0 < sy) ->
+    chg (res_players (settle_vec v)) x = - c.
+Proof. exact settle_vec_folded. Qed.
+Print Assumptions C02_folded_player_wins_nothing.
+
+(* more generally: a player who at every level he paid into faces a contributor with a better score *)
+Theorem C02_beaten_player_loses_his_contribution :
+  forall v, vec_ok v ->
+  forall x c f b s, In (x, c, f, b, s) v ->
+    (forall lv, In lv (ll_lvals (ll_of (v_pot v))) -> lv <= c ->
+       exists y cy fy by' sy, In (y, cy, fy, by', sy) v /\ lv <= cy /\ s < sy) ->
+    chg (res_players (settle_vec v)) x = - c.
+Proof. exact settle_vec_beaten. Qed.
+Print Assumptions C02_beaten_player_loses_his_contribution.
+
+(* an uncalled excess — a level with a single contributor — goes back to its owner *)
+Theorem C02_uncalled_excess_goes_back :
+  forall v, vec_ok v ->
+  forall p l x off, In p (get_pots (ll_of (v_pot v))) -> In l (pt_levels p) -> l_contribs l = [x] ->
+    level_share (slevel (v_pl v) l) off x = 0.
+Proof. exact lone_contributor_level. Qed.
+Print Assumptions C02_uncalled_excess_goes_back.
+
+(* tied winners of the same pot split it equally, their shares differing by at most one chip: in a pot
+   with at least one non-folded contributor every level has the same winners, and over the whole pot any
+   two of them receive the same amount give or take one chip (the repaired defect F3) *)
+Theorem C02_tied_winners_split_equally :
+  forall v, vec_ok v -> scores_ok v ->
+  forall p l0 x y,
+    let ll := ll_of (v_pot v) in
+    In p (get_pots ll) -> elig (ll_contribs ll) (ll_folded ll) (pt_level p) <> [] -> In l0 (pt_levels p) ->
+    (forall l, In l (pt_levels p) -> winners_of (slevel (v_pl v) l) = winners_of (slevel (v_pl v) l0)) /\
+    (In x (winners_of (slevel (v_pl v) l0)) -> In y (winners_of (slevel (v_pl v) l0)) ->
+     -1 <= levels_share (scored_levels (v_pl v) p) 0 x - levels_share (scored_levels (v_pl v) p) 0 y <= 1).
+Proof.
+  intros v Hok Hsc p l0 x y ll Hp Hlive Hl0. split.
+  - intros l Hl. apply (pot_levels_same_winners v Hok Hsc p l l0); assumption.
+  - apply (settle_vec_pot_split v Hok Hsc p l0 x y); assumption.
+Qed.
+Print Assumptions C02_tied_winners_split_equally.
 
 (* regression witness of the repaired defect: contributions 100,100,1,1,2 with the last three
    folded and two tied winners -> both win 2 (before the repair: 3 and 1) *)
@@ -10,3 +126,15 @@ Theorem C02_tied_winners_witness :
   = [2; 2; -1; -1; -2].
 Proof. vm_compute. reflexivity. Qed.
 Print Assumptions C02_tied_winners_witness.
+
+(* non-vacuity: a five-player vector with two all-in levels, folded contributors and a tie meets the premises *)
+Example C02_premises_example :
+  let v : vec := [(0, 100, false, 1000, 7); (1, 100, false, 1000, 7); (2, 1, true, 1000, 0); (3, 40, false, 40, 9); (4, 2, true, 1000, 0)] in
+  vec_ok v /\ scores_ok v /\
+  map r_changed (res_players (settle_vec v)) = [-40; -40; -1; 83; -2].
+Proof.
+  cbv zeta. split; [|split].
+  - split; [repeat constructor; simpl; intuition lia|]. simpl. intros c H. intuition lia.
+  - intros i c f b s H. simpl in H. intuition (try congruence); repeat match goal with E : (_, _, _, _, _) = _ |- _ => injection E as <- <- <- <- <- end; try lia; try discriminate.
+  - vm_compute. reflexivity.
+Qed.
